@@ -255,6 +255,9 @@ pub struct Net {
     pub hold: bool,
     /// cfg `ops=1`: the interpreter logs every op into the trace (`@<op>`)
     pub log_ops: bool,
+    /// cfg `rxhalt=1` (C07, reading R-07): once a receive call of a request task has answered an error, its
+    /// later receive calls are not made (`<cmd>=skipped`): the documented receive pattern ends with an error
+    pub rxhalt: bool,
 }
 pub type NetRef = Rc<RefCell<Net>>;
 
